@@ -751,6 +751,7 @@ def hand_drive(w, d, doers, lim):
     deeds = d.deeds = deque()     # the scheduler's own deque, passed explicitly (extend() and a failing enter need it to be .deeds)
     try:
         d.enter()
+        d.enter(doers=[])      # an empty batch entered by hand enters nobody (and touches nobody who is already in)
         tymer = tyming.Tymer(tymth=d.tymen(), duration=lim) if lim else None
         while True:
             d.recur(deeds=deeds)
